@@ -522,7 +522,34 @@ func c05R4(p *core.Program, r *core.Report) {
 			continue
 		}
 		a := cs.Common().Args
-		r.Check(truncCallWithLimit(a[len(a)-1], "Truncate", "MaxFieldChars", 0) != nil, "R4", core.FuncName(cs.Caller)+"/SetName-truncated", p.Pos(cs.Pos()),
+		// truncated here, or a parameter of an unexported helper that every caller hands a truncated value
+		var truncated func(v ssa.Value, depth int) bool
+		truncated = func(v ssa.Value, depth int) bool {
+			if truncCallWithLimit(v, "Truncate", "MaxFieldChars", 0) != nil {
+				return true
+			}
+			par, ok := core.StripConv(v).(*ssa.Parameter)
+			if !ok || depth > 2 || par.Parent().Object() == nil || par.Parent().Object().Exported() {
+				return false
+			}
+			idx := -1
+			for i, q := range par.Parent().Params {
+				if q == par {
+					idx = i
+				}
+			}
+			sites := p.CallsTo(par.Parent())
+			if idx < 0 || len(sites) == 0 {
+				return false
+			}
+			for _, s2 := range sites {
+				if idx >= len(s2.Common().Args) || !truncated(s2.Common().Args[idx], depth+1) {
+					return false
+				}
+			}
+			return true
+		}
+		r.Check(truncated(a[len(a)-1], 0), "R4", core.FuncName(cs.Caller)+"/SetName-truncated", p.Pos(cs.Pos()),
 			"name derives from Truncate(_, Options().MaxFieldChars)", "a contact name is set without truncation to MaxFieldChars")
 	}
 	for _, cs := range p.CallsToName("flows.FieldValues.Set") {
